@@ -58,8 +58,23 @@ func runC12(c *Ctx) {
 			c.Sample(map[string]interface{}{"files": sw.FileMap()})
 		}
 	})
+	// lane: globals reached through _G while a same-named local / parameter / loop variable is in scope
+	nG := c.N(150, 3000)
+	parallel(nG, 14, func(i int) {
+		r := root.Fork(uint64(5000000 + i))
+		files := c12GFiles(r)
+		sw, ok := ScopeWSFromFiles(files)
+		if !ok {
+			c.Inconclusive("harness inconsistency: _G workspace not valid for the reference front end")
+			return
+		}
+		c.Eval(1)
+		c.Count("underscore_g_workspaces", 1)
+		checkC12WS(c, sw, fmt.Sprintf("c12g%d", i))
+	})
 	c.Set("testdata_dirs", tdirs)
-	c.Finish("generated workspaces as in C05 plus every directory of luahelper-lsp/testdata; for every identifier token the four answers "+
+	c.Finish("generated workspaces as in C05, workspaces in which globals are read and written as _G.name while same-named locals, parameters and loop variables shadow them, "+
+		"plus every directory of luahelper-lsp/testdata; for every identifier token the four answers "+
 		"(definition, references, documentHighlight, hover) are cross-compared (clauses a-d); no external oracle. distinct_nontrivial = distinct "+
 		"(file text, identifier token) whose definition or references answer was non-empty", 300)
 }
@@ -157,13 +172,20 @@ func checkC12WS(c *Ctx, sw *ScopeWS, tag string) {
 				continue
 			}
 			isVar := f.Bind.ByOff[t.Off] != nil
-			if !isVar && !sw.Loose {
+			// the name after `_G.` names a global variable (the tool documents _G.x as the global x)
+			viaG := !isVar && t.Idx >= 2 && f.Parse.Lex.Toks[t.Idx-1].Text == "." && f.Parse.Lex.Toks[t.Idx-2].Text == "_G" &&
+				(t.Idx < 3 || (f.Parse.Lex.Toks[t.Idx-3].Text != "." && f.Parse.Lex.Toks[t.Idx-3].Text != ":"))
+			if !isVar && !sw.Loose && !viaG {
 				// generated programs use random member names that nothing defines; members are exercised on testdata only
 				continue
 			}
 			p := posAt(f.Src, t.Off)
 			own := Location{URI: uri, Range: f.TokRange(t)}
 			cls := c12Class(nameClass(f, t), isVar)
+			if viaG && !sw.Loose {
+				cls = "var:global-via-_G"
+				c.Count("global_via_G_positions", 1)
+			}
 			if o := f.Bind.ByOff[t.Off]; o != nil && o.Decl == nil && len(sw.GlobalDefs[t.Val]) > 1 {
 				cls = "var:global-multi-def"
 			}
@@ -340,4 +362,92 @@ func c12Class(cls string, isVar bool) string {
 	}
 	parts := strings.SplitN(cls, "|", 2)
 	return "var:" + parts[len(parts)-1]
+}
+
+// c12GFiles: two files in which a few globals (each defined exactly once) are read both plainly and as _G.name, inside
+// blocks where a local, parameter or loop variable of the same name is in scope (shadowing locals are also written).
+func c12GFiles(r *Rng) map[string]string {
+	pool := []string{"gcount", "gTotal", "gState", "gFlag"}
+	var names []string
+	for _, i := range r.Perm(len(pool))[:r.Range(2, 3)] {
+		names = append(names, pool[i])
+	}
+	var gen func(sb *strings.Builder, ind string, depth int, k *int, shadowed map[string]bool)
+	stmt := func(sb *strings.Builder, ind string, n string, k *int, shadowed map[string]bool) {
+		*k++
+		switch r.Intn(7) {
+		case 0:
+			fmt.Fprintf(sb, "%sprint(_G.%s)\n", ind, n)
+		case 1:
+			fmt.Fprintf(sb, "%slocal u%d = _G.%s + 1\n%sprint(u%d)\n", ind, *k, n, ind, *k)
+		case 2:
+			fmt.Fprintf(sb, "%sprint(%s)\n", ind, n)
+		case 3:
+			if shadowed[n] {
+				fmt.Fprintf(sb, "%s%s = %s + _G.%s\n", ind, n, n, n)
+			} else {
+				fmt.Fprintf(sb, "%sprint(%s + _G.%s)\n", ind, n, n)
+			}
+		case 4:
+			fmt.Fprintf(sb, "%slocal t%d = { v = _G.%s, w = %s }\n%sprint(t%d)\n", ind, *k, n, n, ind, *k)
+		case 5:
+			fmt.Fprintf(sb, "%sif _G.%s == %s then print(%d) end\n", ind, n, n, *k)
+		default:
+			fmt.Fprintf(sb, "%sprint(_G.%s, %s, _G.%s)\n", ind, n, n, r.Pick(names))
+		}
+	}
+	with := func(m map[string]bool, n string) map[string]bool {
+		o := map[string]bool{n: true}
+		for k := range m {
+			o[k] = true
+		}
+		return o
+	}
+	gen = func(sb *strings.Builder, ind string, depth int, k *int, shadowed map[string]bool) {
+		for i := r.Range(2, 5); i > 0; i-- {
+			n := r.Pick(names)
+			if depth < 3 && r.Chance(1, 3) {
+				*k++
+				id := *k
+				switch r.Intn(4) {
+				case 0:
+					fmt.Fprintf(sb, "%sdo\n%s  local %s = %d\n", ind, ind, n, id)
+					gen(sb, ind+"  ", depth+1, k, with(shadowed, n))
+					fmt.Fprintf(sb, "%send\n", ind)
+				case 1:
+					fmt.Fprintf(sb, "%slocal function fn%d(%s)\n", ind, id, n)
+					gen(sb, ind+"  ", depth+1, k, with(shadowed, n))
+					fmt.Fprintf(sb, "%s  return %s\n%send\n%sprint(fn%d(1))\n", ind, n, ind, ind, id)
+				case 2:
+					fmt.Fprintf(sb, "%sfor %s = 1, 2 do\n", ind, n)
+					gen(sb, ind+"  ", depth+1, k, with(shadowed, n))
+					fmt.Fprintf(sb, "%send\n", ind)
+				default:
+					fmt.Fprintf(sb, "%sfor _, %s in pairs({}) do\n", ind, n)
+					gen(sb, ind+"  ", depth+1, k, with(shadowed, n))
+					fmt.Fprintf(sb, "%send\n", ind)
+				}
+				continue
+			}
+			stmt(sb, ind, n, k, shadowed)
+		}
+	}
+	files := map[string]string{}
+	var a strings.Builder
+	for _, n := range names {
+		a.WriteString(n + " = 0\n")
+	}
+	k := 0
+	gen(&a, "", 0, &k, map[string]bool{})
+	if r.Bool() {
+		// a file-level local shadows one global for the rest of the file
+		n := r.Pick(names)
+		fmt.Fprintf(&a, "local %s = 7\n", n)
+		gen(&a, "", 1, &k, map[string]bool{n: true})
+	}
+	files["ga.lua"] = a.String()
+	var b strings.Builder
+	gen(&b, "", 0, &k, map[string]bool{})
+	files["gb.lua"] = b.String()
+	return files
 }
